@@ -59,13 +59,22 @@ func checkC14(c *km.Ctx) {
 			}
 		}
 	}
+	// the limiter may be held behind a one-method interface: what matters is that Allow() is asked of the value kept
+	// in passwordAttemptGlobalLimiter (whose construction R-C14-2 judges)
+	isAllow := func(cl *ssa.Call, needField bool) bool {
+		cc := cl.Common()
+		if cc.IsInvoke() {
+			return cc.Method.Name() == "Allow" && len(cc.Args) == 0 && (!needField || mentionsField(cc.Value, "passwordAttemptGlobalLimiter"))
+		}
+		return km.CalleeFull(cc) == limiterAll && (!needField || mentionsField(cc.Args[0], "passwordAttemptGlobalLimiter"))
+	}
 	allowTrue := km.Prim{Name: "Allow()", Direct: func(f km.Fact) bool {
 		cl, ok := f.X.(*ssa.Call)
-		return f.Op == token.ILLEGAL && f.Pol && ok && km.CalleeFull(cl.Common()) == limiterAll && mentionsField(cl.Common().Args[0], "passwordAttemptGlobalLimiter")
+		return f.Op == token.ILLEGAL && f.Pol && ok && isAllow(cl, true)
 	}}
 	allowFalse := km.Prim{Name: "!Allow()", Direct: func(f km.Fact) bool {
 		cl, ok := f.X.(*ssa.Call)
-		return f.Op == token.ILLEGAL && !f.Pol && ok && km.CalleeFull(cl.Common()) == limiterAll
+		return f.Op == token.ILLEGAL && !f.Pol && ok && isAllow(cl, false)
 	}}
 	nNil := 0
 	for _, rc := range s.RetCases(lim) {
